@@ -147,6 +147,16 @@ func RunCheck(cfg CheckConfig) int {
 			continue
 		}
 		fo, fd := 0, 0
+		var deadCovers []*OblResult
+		nRet, nRetDead := 0, 0
+		for _, r := range fr.Results {
+			if r.Obl.Cover && strings.Contains(r.Obl.Name, "#cover.return") {
+				nRet++
+				if !r.OK {
+					nRetDead++
+				}
+			}
+		}
 		for _, r := range fr.Results {
 			o := r.Obl
 			mine := true
@@ -162,8 +172,7 @@ func RunCheck(cfg CheckConfig) int {
 				if r.OK {
 					nCoverOK++
 				} else {
-					violations++
-					fail(o.Name, "vacuity: the path to this point is infeasible under the contract's assumptions (contradictory requires/ensures)", r.Verdict.Output)
+					deadCovers = append(deadCovers, r)
 				}
 				continue
 			}
@@ -212,6 +221,16 @@ func RunCheck(cfg CheckConfig) int {
 			violations++
 			rp := writeReplay(cfg, o.Name, fmt.Sprintf("obligation not discharged (%s by %s): %s %s", r.Verdict.Status, r.Verdict.Solver, o.Pos, o.Clause), r.Verdict.Output+"\n\n; ---- query ----\n"+o.Query(true))
 			fmt.Fprintf(out, "VIOLATION property=%s replay=%s obligation=%s no-failing-input-found\n", prop, rp, o.Name)
+		}
+		// vacuity: contradictory preconditions, or no return is reachable although the function has returns.
+		// (a single infeasible return is dead code, e.g. a constant-folded branch, and is only noted)
+		for _, r := range deadCovers {
+			if strings.HasSuffix(r.Obl.Name, "#cover.requires") || (nRet > 0 && nRetDead == nRet) {
+				violations++
+				fail(r.Obl.Name, "vacuity: the path to this point is infeasible under the contract's assumptions (contradictory requires/ensures)", r.Verdict.Output)
+			} else {
+				notes = append(notes, fr.Func+": return point "+r.Obl.Name+" is unreachable (dead code or excluded by the preconditions)")
+			}
 		}
 		funcs = append(funcs, map[string]any{"func": fr.Func, "obligations": fo, "discharged": fd, "blocks": fr.Blocks, "instrs": fr.Instrs, "wall_s": round3(fr.Wall)})
 		for _, n := range fr.Notes {
